@@ -129,6 +129,11 @@ func ParseLabel(label string) (Op, error) {
 		op.Lg = unq(f[3])
 	case "StreamWrite":
 		op.K, _ = strconv.Atoi(strings.TrimSpace(args))
+	case "OpenStreamBad":
+		f := strings.Split(args, ",")
+		op.N, _ = strconv.Atoi(strings.TrimSpace(f[0]))
+		op.G, _ = strconv.Atoi(strings.TrimSpace(f[1]))
+		op.Why = unq(f[2])
 	case "WriteCompressedBad":
 		op.Why = unq(args)
 	case "WC1":
@@ -377,7 +382,7 @@ func Execute(cfg Config, prog []Op, seed int64) (run Run, err error) {
 		if (op.Op == "StreamWrite" || op.Op == "CloseStream" || op.Op == "OpenWhileOpen" || op.Op == "CloseWhileOpen") && stm == nil {
 			continue
 		}
-		if (op.Op == "OpenStream" || op.Op == "WriteCompressed" || op.Op == "Close") && stm != nil {
+		if (op.Op == "OpenStream" || op.Op == "OpenStreamBad" || op.Op == "WriteCompressed" || op.Op == "Close") && stm != nil {
 			continue
 		}
 		var fatal error
@@ -448,6 +453,29 @@ func Execute(cfg Config, prog []Op, seed int64) (run Run, err error) {
 					stm = nil
 				} else {
 					stmRef, stmID, stmBody = [2]int{op.N, op.G}, op.V, nil
+				}
+			case "OpenStreamBad":
+				// refused for its arguments: nothing may be recorded
+				ref := pdf.NewReference(uint32(op.N), uint16(op.G))
+				d := shared.ToPDF(sdict["a"]).(pdf.Dict)
+				var bad []pdf.Filter
+				if op.Why == "filterVersion" {
+					switch {
+					case version < pdf.V1_2:
+						bad = []pdf.Filter{pdf.FilterFlate{}}
+					case version < pdf.V1_5:
+						bad = []pdf.Filter{pdf.FilterCryptIdentity{}}
+					}
+				}
+				if bad == nil {
+					d["Length"] = pdf.Name("twelve")
+				}
+				var s io.WriteCloser
+				s, cerr = w.OpenStream(ref, d, bad...)
+				if cerr == nil {
+					s.Close()
+					fatal = errors.New("OpenStream with a bad argument succeeded")
+					return
 				}
 			case "OpenWhileOpen":
 				_, cerr = w.OpenStream(pdf.NewReference(4000, 0), pdf.Dict{}) // fails before anything is recorded
